@@ -179,6 +179,7 @@ def start_point(draw, spec, allow_none=True):
     """In-bounds x0 (clip of a drawn vector), y0 in {None, 0, random * scale}."""
     n, m = spec["n"], spec["m"]
     lb, ub = np.array(spec["lb"]), np.array(spec["ub"])
+    shift = np.array(spec.get("shift", [0.0] * n))
     kind = draw(st.sampled_from(["vec", "vec", "vec", "none", "scalar"] if allow_none else ["vec"]))
     if kind == "none":
         x0 = None
@@ -191,7 +192,7 @@ def start_point(draw, spec, allow_none=True):
             x0 = np.clip(np.full(n, s), lb, ub).tolist()
     else:
         scale = draw(st.sampled_from([0.125, 1.0, 8.0]))
-        raw = np.array(dvec(draw, n)) * scale
+        raw = np.array(dvec(draw, n)) * scale + shift
         x0 = np.clip(raw, lb, ub).tolist()
     ykind = draw(st.sampled_from(["none", "zero", "rand", "rand", "big"]))
     if ykind == "none" or m == 0:
@@ -469,7 +470,7 @@ def degenerate_spec(draw, max_n=4):
 
 
 @st.composite
-def any_spec(draw, families=("nlp", "qp", "degenerate"), max_n=5, max_m=3):
+def any_spec(draw, families=("nlp", "qp", "degenerate"), max_n=5, max_m=3, magnify=True):
     fam = draw(st.sampled_from(families))
     if fam == "nlp":
         s = draw(nlp_spec(max_n=max_n, max_m=max_m))
@@ -485,7 +486,29 @@ def any_spec(draw, families=("nlp", "qp", "degenerate"), max_n=5, max_m=3):
         s = draw(unbounded_spec(max_n=min(max_n, 4)))
     else:
         raise ValueError(fam)
+    if magnify and draw(st.integers(0, 3)) == 0:
+        s = draw(magnified(s))
     return s
+
+
+@st.composite
+def magnified(draw, spec):
+    """Translate variables / rows so that bounds and row bounds have large magnitude (1e3..1e6)
+    while the problem stays the same well-conditioned one (exact: all data are dyadic)."""
+    spec = dict(spec)
+    n, m = spec["n"], spec["m"]
+    sh = [draw(st.sampled_from([0.0, 0.0, 1000.0, -4096.0, 1.0e6, -250000.0])) for _ in range(n)]
+    rs = [draw(st.sampled_from([0.0, 0.0, 1000.0, -200000.0, 1.0e6])) for _ in range(m)]
+    spec["shift"] = sh
+    spec["rshift"] = rs
+    spec["lb"] = [l + t for l, t in zip(spec["lb"], sh)]
+    spec["ub"] = [u + t for u, t in zip(spec["ub"], sh)]
+    spec["cl"] = [l + t for l, t in zip(spec["cl"], rs)]
+    spec["cu"] = [u + t for u, t in zip(spec["cu"], rs)]
+    if "xf" in spec:
+        spec["xf"] = [a + t for a, t in zip(spec["xf"], sh)]
+    spec["family"] = spec.get("family", "nlp") + "+magnified"
+    return spec
 
 
 @st.composite
